@@ -397,3 +397,22 @@ def fp_relative_path_location(r1, r2, rel):
     a = call(FPR + "PathResolver.get_relative_path", mk(ResolverT, project_root=mkpath(r1)), f1)
     b = call(FPR + "PathResolver.get_relative_path", mk(ResolverT, project_root=mkpath(r2)), f2)
     return path_parts(a) == rel and path_parts(b) == rel
+
+
+# =================================================================== 5. project root inferred from --config
+CU = "src/cli/utils.py::"
+from contracts.c09_paths import path_resolve, path_parent, resolve_facts  # noqa: E402
+
+
+@contract(CU + "_infer_root_from_config", props=["C09", "C05"], types=dict(config_path=Str, verbose=Bool), returns=PathT)
+class InferRootFromConfig:
+    def reveals(config_path, verbose):
+        return resolve_facts(path_of_str(config_path))
+
+    def value(config_path, verbose):
+        return path_parent(path_resolve(path_of_str(config_path)))
+
+    def ensures_root_is_absolute(config_path, verbose, result):
+        # C09: the project root does not depend on how --config was spelled: it is an ABSOLUTE directory, so that
+        # file_path.relative_to(root) works for absolutely spelled targets
+        return path_is_abs(result)
